@@ -155,9 +155,11 @@ namespace igris
             {
                 uint16_t sz;
                 load(sz);
-                if (sz > maxsz)
-                    sz = maxsz;
-                load_data(dat, sz);
+                uint16_t readsize = sz > maxsz ? maxsz : sz;
+                load_data(dat, readsize);
+                // the part of the payload that does not fit is skipped, so
+                // that the next field is read from its own first byte
+                skip(sz - readsize);
             }
 
             void load(int8_t &i) { load_data((char *)&i, sizeof(i)); }
@@ -202,6 +204,7 @@ namespace igris
 
                 int readsize = buf.size() < len ? buf.size() : len;
                 load_data((char *)buf.data(), readsize);
+                skip(len - readsize);
 
                 buf = igris::buffer(buf.data(), readsize);
             }
